@@ -233,7 +233,8 @@ Qed.
 
 Record inv (st : rstate) (tr : list tevent) : Prop := mk_inv {
   i_keys : NoDup (map key_of (r_nbrs st));
-  i_sess : forall n, In n (r_nbrs st) -> sess tr (key_of n) = Some (n_src n, n_ap4 n, n_ap6 n);
+  i_sess : forall n, In n (r_nbrs st) ->
+           sess tr (key_of n) = Some (n_src n, n_ap4 n, n_ap6 n, nbr_ibgp n, n_rid n);
   i_sess' : forall k x, sess tr k = Some x -> exists n, In n (r_nbrs st) /\ key_of n = k;
   i_src : forall n, In n (r_nbrs st) -> snd (n_src n) = n_addr n;
   i_rib : forall n v6 y, In n (r_nbrs st) -> cntk y (rib_of v6 n) = b2n (live tr (key_of n) v6 y);
@@ -277,12 +278,10 @@ Lemma set_rib_fields : forall v6 r n,
   key_of (set_rib v6 r n) = key_of n /\ n_src (set_rib v6 r n) = n_src n /\
   n_vrf (set_rib v6 r n) = n_vrf n /\ n_addr (set_rib v6 r n) = n_addr n /\
   n_ap4 (set_rib v6 r n) = n_ap4 n /\ n_ap6 (set_rib v6 r n) = n_ap6 n /\
+  nbr_ibgp (set_rib v6 r n) = nbr_ibgp n /\ n_rid (set_rib v6 r n) = n_rid n /\
   (forall w, ap_of w (set_rib v6 r n) = ap_of w n) /\
   (forall w, rib_of w (set_rib v6 r n) = if Bool.eqb v6 w then r else rib_of w n).
 Proof. intros [] r n; repeat split; intros []; reflexivity. Qed.
-
-Definition ev_parts (ev : uevent) : bool * bool * prefix * N :=
-  match ev with UAnn v6 p id => (true, v6, p, id) | UWdr v6 p id => (false, v6, p, id) end.
 
 (* one Adj-RIB-In call on an up neighbor keeps the invariant, the trace growing by that event *)
 Lemma rib_op_inv : forall st tr n isann v6 p id,
@@ -311,13 +310,13 @@ Proof.
       repeat split; try congruence; try (intros rd'; rewrite D; apply F4).
     - repeat split; auto. }
   destruct F as (G1 & G2 & G3).
-  destruct (set_rib_fields v6 rib' n) as (K1 & K2 & K3 & K4 & K5 & K6 & K7 & K8). fold n' in K1, K2, K3, K4, K5, K6, K7, K8.
+  destruct (set_rib_fields v6 rib' n) as (K1 & K2 & K3 & K4 & K5 & K6 & K9 & K10 & K7 & K8). fold n' in K1, K2, K3, K4, K5, K6, K7, K8, K9, K10.
   assert (Hsess : forall k, sess (ev' :: tr) k = sess tr k) by (intros k; unfold ev'; destruct isann; reflexivity).
   assert (Hkeys : map key_of (put_nbr n' (r_nbrs st)) = map key_of (r_nbrs st)) by apply put_nbr_keys.
   constructor; cbn [r_nbrs r_ignored set_nbrs]; rewrite ?G1.
   - rewrite Hkeys. exact IK.
   - intros m Hm. rewrite Hsess. destruct (put_nbr_in n' _ m IK Hm) as [(-> & _)|(A & _)].
-    + rewrite K1, K2, K5, K6. apply IS. exact Hn.
+    + rewrite K1, K2, K5, K6, K9, K10. apply IS. exact Hn.
     + apply IS. exact A.
   - intros k x Hs. rewrite Hsess in Hs. destruct (IS' k x Hs) as (m & A & B).
     destruct (nkey_eqb (key_of m) (key_of n)) eqn:E.
@@ -436,7 +435,7 @@ Qed.
 
 Lemma inv_find : forall st tr k x, inv st tr -> sess tr k = Some x ->
   exists n, find_nbr k (r_nbrs st) = Some n /\ In n (r_nbrs st) /\ key_of n = k /\
-            x = (n_src n, n_ap4 n, n_ap6 n).
+            x = (n_src n, n_ap4 n, n_ap6 n, nbr_ibgp n, n_rid n).
 Proof.
   intros st tr k x I Hs. destruct (i_sess' _ _ I k x Hs) as (n & Hn & Hk).
   exists n. split; [rewrite <- Hk; apply in_find_nbr; [apply (i_keys _ _ I)|exact Hn]|].
@@ -451,23 +450,25 @@ Proof.
   rewrite Hk in H. congruence.
 Qed.
 
-Lemma apply_events_inv : forall evs st tr k s a4 a6,
-  inv st tr -> sess tr k = Some (s, a4, a6) ->
-  forallb (wf_uevent a4 a6) evs = true ->
+Lemma apply_events_inv : forall evs st tr k s a4 a6 ib rid,
+  inv st tr -> sess tr k = Some (s, a4, a6, ib, rid) ->
+  forallb (wf_uevent a4 a6 ib rid) evs = true ->
   inv (fold_left (fun acc ev => apply_event k ev acc) evs st) (rev (map (tevent_of k) evs) ++ tr) /\
   r_closed (fold_left (fun acc ev => apply_event k ev acc) evs st) = r_closed st.
 Proof.
-  induction evs as [|ev evs IH]; intros st tr k s a4 a6 I Hs Hwf; cbn [fold_left map rev app].
+  induction evs as [|ev evs IH]; intros st tr k s a4 a6 ib rid I Hs Hwf; cbn [fold_left map rev app].
   - split; [exact I|reflexivity].
   - cbn [forallb] in Hwf. apply andb_true_iff in Hwf. destruct Hwf as (Hw1 & Hw2).
-    destruct (inv_find _ _ _ _ I Hs) as (n & F & Hn & Hk & Hx). inversion Hx; subst s a4 a6.
+    destruct (inv_find _ _ _ _ I Hs) as (n & F & Hn & Hk & Hx). inversion Hx; subst s a4 a6 ib rid.
     assert (I' : inv (apply_event k ev st) (tevent_of k ev :: tr)).
-    { unfold apply_event. rewrite F. subst k. destruct ev as [v6 p id|v6 p id]; cbn [tevent_of].
-      - apply (rib_op_inv st tr n true v6 p id I Hn). cbn [wf_uevent] in Hw1. destruct v6; exact Hw1.
+    { unfold apply_event. rewrite F. subst k. destruct ev as [v6 p id a|v6 p id]; cbn [tevent_of].
+      - cbn [wf_uevent] in Hw1. apply andb_true_iff in Hw1. destruct Hw1 as (Hw1 & Hh).
+        unfold bmp_contributing_asns, bmp_contributing_cluster_ids. rewrite Hh.
+        apply (rib_op_inv st tr n true v6 p id I Hn). destruct v6; exact Hw1.
       - apply (rib_op_inv st tr n false v6 p id I Hn). cbn [wf_uevent] in Hw1. destruct v6; exact Hw1. }
-    assert (Hs' : sess (tevent_of k ev :: tr) k = Some (n_src n, n_ap4 n, n_ap6 n))
+    assert (Hs' : sess (tevent_of k ev :: tr) k = Some (n_src n, n_ap4 n, n_ap6 n, nbr_ibgp n, n_rid n))
       by (destruct ev; cbn [tevent_of sess]; exact Hs).
-    destruct (IH (apply_event k ev st) (tevent_of k ev :: tr) k _ _ _ I' Hs' Hw2) as (A & B).
+    destruct (IH (apply_event k ev st) (tevent_of k ev :: tr) k _ _ _ _ _ I' Hs' Hw2) as (A & B).
     rewrite <- app_assoc. cbn [app]. split; [exact A|]. rewrite B. apply apply_event_closed.
 Qed.
 
@@ -546,7 +547,7 @@ Proof.
   { rewrite V1. apply (inv_find_none _ tr k I3 Hs). }
   rewrite Fn. cbn [rev app].
   set (n := mk_nbr (p_rd h) (p_addr h) (src_of h) (p_as h) (asn_of_open so)
-                   (addpath_rx so ro 1) (addpath_rx so ro 2) (negb (len (o_asn4 ro) =? 0)) [] []).
+                   (addpath_rx so ro 1) (addpath_rx so ro 2) (negb (len (o_asn4 ro) =? 0)) (o_bgpid so) [] []).
   set (st1 := create_vrf (p_rd h) (bump 3 st)) in *.
   destruct I3 as [IK IS IS' ISR IR I0 IT IV IG].
   assert (Hkn : key_of n = k) by reflexivity.
@@ -664,10 +665,10 @@ Proof.
   rewrite (i_ign _ _ I0). cbn [mem_src].
   unfold wf_msg, BMPMirrorSpec.wf_msg in Hwf. apply andb_true_iff in Hwf. destruct Hwf as (_ & Hwf).
   unfold key_of_pph in *. set (k := (p_rd h, p_addr h)) in *.
-  destruct (sess tr k) as [[[s a4] a6]|] eqn:Hs.
-  - destruct (inv_find _ _ _ _ I0 Hs) as (n & F & Hn & Hk & Hx). rewrite F. inversion Hx; subst s a4 a6.
+  destruct (sess tr k) as [[[[[s a4] a6] ib] rid]|] eqn:Hs.
+  - destruct (inv_find _ _ _ _ I0 Hs) as (n & F & Hn & Hk & Hx). rewrite F. inversion Hx; subst s a4 a6 ib rid.
     rewrite <- map_rev. rewrite map_rev.
-    destruct (apply_events_inv (upd_apply (n_ap4 n) (n_ap6 n) (negb (flag_a h)) upd) (bump 0 st) tr k _ _ _ I0 Hs Hwf)
+    destruct (apply_events_inv (upd_apply (n_ap4 n) (n_ap6 n) (negb (flag_a h)) upd) (bump 0 st) tr k _ _ _ _ _ I0 Hs Hwf)
       as (A & B).
     split; [exact A|]. rewrite B. reflexivity.
   - rewrite (inv_find_none _ _ _ I0 Hs). cbn [rev app]. split; [exact I0|reflexivity].
@@ -867,12 +868,12 @@ Proof.
 Qed.
 
 (* a route of an up peer is in its VRF's table exactly when it is live *)
-Lemma inv_mirror_up : forall st tr k s a4 a6 v6 y,
-  inv st tr -> sess tr k = Some (s, a4, a6) ->
+Lemma inv_mirror_up : forall st tr k s a4 a6 ib rid v6 y,
+  inv st tr -> sess tr k = Some (s, a4, a6, ib, rid) ->
   cnt (tag s y) (table st (fst k) v6) = b2n (live tr k v6 y).
 Proof.
-  intros st tr k s a4 a6 v6 y I Hs.
-  destruct (inv_find _ _ _ _ I Hs) as (n & F & Hn & Hk & Hx). inversion Hx; subst s a4 a6.
+  intros st tr k s a4 a6 ib rid v6 y I Hs.
+  destruct (inv_find _ _ _ _ I Hs) as (n & F & Hn & Hk & Hx). inversion Hx; subst s a4 a6 ib rid.
   rewrite (i_tab _ _ I).
   rewrite (expected_single (r_nbrs st) n (fst k) v6 (tag (n_src n) y) Hn (i_keys _ _ I)).
   - unfold contrib. assert (n_vrf n = fst k) by (rewrite <- Hk; reflexivity). rewrite H, N.eqb_refl.
@@ -888,15 +889,15 @@ Qed.
 (* and nothing else is in any table: every entry is a live route of a peer that is up *)
 Lemma inv_mirror_only : forall st tr rd v6 e,
   inv st tr -> In e (table st rd v6) ->
-  exists addr a4 a6,
-    sess tr (rd, addr) = Some (fst (fst e), a4, a6) /\
+  exists addr a4 a6 ib rid,
+    sess tr (rd, addr) = Some (fst (fst e), a4, a6, ib, rid) /\
     live tr (rd, addr) v6 (snd (fst e), snd e) = true.
 Proof.
   intros st tr rd v6 e I Hin. apply in_cnt_pos in Hin. rewrite (i_tab _ _ I) in Hin.
   destruct (expected_pos _ _ _ _ Hin) as (n & Hn & Hc). unfold contrib in Hc.
   destruct (n_vrf n =? rd) eqn:E; [|cbn in Hc; lia].
   apply cnt_pos_in in Hc. apply in_map_iff in Hc. destruct Hc as (y & Hy & Hyin). subst e.
-  exists (n_addr n), (n_ap4 n), (n_ap6 n). unfold tag. cbn [fst snd].
+  exists (n_addr n), (n_ap4 n), (n_ap6 n), (nbr_ibgp n), (n_rid n). unfold tag. cbn [fst snd].
   assert (Hk : key_of n = (rd, n_addr n)) by (unfold key_of; f_equal; lia).
   rewrite <- Hk. split; [apply (i_sess _ _ I n Hn)|].
   pose proof (i_rib _ _ I n v6 y Hn) as R.
@@ -914,11 +915,11 @@ Hypothesis Hign : ignore_asns c = [].
 Theorem mirror : forall acts,
   wf open_decode upd_apply c acts = true ->
   exists st, run open_decode upd_apply c init acts = Some st /\
-    (forall k s a4 a6 v6 y, sess (trace open_decode upd_apply c acts) k = Some (s, a4, a6) ->
+    (forall k s a4 a6 ib rid v6 y, sess (trace open_decode upd_apply c acts) k = Some (s, a4, a6, ib, rid) ->
        cnt (tag s y) (table st (fst k) v6) = b2n (live (trace open_decode upd_apply c acts) k v6 y)) /\
     (forall rd v6 e, In e (table st rd v6) ->
-       exists addr a4 a6,
-         sess (trace open_decode upd_apply c acts) (rd, addr) = Some (fst (fst e), a4, a6) /\
+       exists addr a4 a6 ib rid,
+         sess (trace open_decode upd_apply c acts) (rd, addr) = Some (fst (fst e), a4, a6, ib, rid) /\
          live (trace open_decode upd_apply c acts) (rd, addr) v6 (snd (fst e), snd e) = true).
 Proof.
   intros acts Hwf. unfold wf in Hwf.
@@ -935,7 +936,7 @@ Corollary nothing_remains : forall acts st,
   run open_decode upd_apply c init acts = Some st ->
   (* tables hold only routes of peers whose session is up ... *)
   (forall rd v6 e, In e (table st rd v6) ->
-     exists addr x, sess (trace open_decode upd_apply c acts) (rd, addr) = Some x /\ fst (fst x) = fst (fst e)) /\
+     exists addr x, sess (trace open_decode upd_apply c acts) (rd, addr) = Some x /\ fst (fst (fst (fst x))) = fst (fst e)) /\
   (* ... a peer whose last word was peer down has none ... *)
   (forall k tr', trace open_decode upd_apply c acts = EDown k :: tr' ->
      forall v6 e, In e (table st (fst k) v6) ->
@@ -948,11 +949,11 @@ Proof.
   destruct (run_inv open_decode upd_apply c Hign acts init [] false inv_init eq_refl Hwf) as (st' & R & I).
   rewrite Hrun in R. inversion R; subst st'. unfold trace_from in I. fold (trace open_decode upd_apply c acts) in I.
   split; [|split].
-  - intros rd v6 e Hin. destruct (inv_mirror_only _ _ _ _ _ I Hin) as (addr & a4 & a6 & A & _).
-    exists addr, (fst (fst e), a4, a6). split; [exact A|reflexivity].
-  - intros k tr' Ht v6 e Hin. destruct (inv_mirror_only _ _ _ _ _ I Hin) as (addr & a4 & a6 & A & _).
+  - intros rd v6 e Hin. destruct (inv_mirror_only _ _ _ _ _ I Hin) as (addr & a4 & a6 & ib & rid & A & _).
+    exists addr, (fst (fst e), a4, a6, ib, rid). split; [exact A|reflexivity].
+  - intros k tr' Ht v6 e Hin. destruct (inv_mirror_only _ _ _ _ _ I Hin) as (addr & a4 & a6 & ib & rid & A & _).
     rewrite Ht in A. cbn [sess] in A. destruct (nkey_eqb k (fst k, addr)) eqn:E; [discriminate|].
-    exists addr, (fst (fst e), a4, a6). split; [|exact A].
+    exists addr, (fst (fst e), a4, a6, ib, rid). split; [|exact A].
     intros Ea. subst addr. destruct k as [k1 k2]. cbn [fst snd] in E. rewrite nkey_eqb_refl in E. discriminate.
   - intros tr' Ht. split.
     + destruct (r_nbrs st) as [|n l] eqn:En; [reflexivity|]. exfalso.
@@ -960,7 +961,7 @@ Proof.
       rewrite Ht in H. cbn [sess] in H. discriminate.
     + intros rd v6. destruct (table st rd v6) as [|e t] eqn:Et; [reflexivity|]. exfalso.
       assert (Hin : In e (table st rd v6)) by (rewrite Et; left; reflexivity).
-      destruct (inv_mirror_only _ _ _ _ _ I Hin) as (addr & a4 & a6 & A & _).
+      destruct (inv_mirror_only _ _ _ _ _ I Hin) as (addr & a4 & a6 & ib & rid & A & _).
       rewrite Ht in A. cbn [sess] in A. discriminate.
 Qed.
 
@@ -971,11 +972,11 @@ End Mirror.
 Definition mirror_holds (open_decode : bytes -> option open_info)
     (upd_apply : bool -> bool -> bool -> bytes -> list uevent) (c : cfg) (acts : list action) : Prop :=
   exists st, run open_decode upd_apply c init acts = Some st /\
-    (forall k s a4 a6 v6 y, sess (trace open_decode upd_apply c acts) k = Some (s, a4, a6) ->
+    (forall k s a4 a6 ib rid v6 y, sess (trace open_decode upd_apply c acts) k = Some (s, a4, a6, ib, rid) ->
        cnt (tag s y) (table st (fst k) v6) = b2n (live (trace open_decode upd_apply c acts) k v6 y)) /\
     (forall rd v6 e, In e (table st rd v6) ->
-       exists addr a4 a6,
-         sess (trace open_decode upd_apply c acts) (rd, addr) = Some (fst (fst e), a4, a6) /\
+       exists addr a4 a6 ib rid,
+         sess (trace open_decode upd_apply c acts) (rd, addr) = Some (fst (fst e), a4, a6, ib, rid) /\
          live (trace open_decode upd_apply c acts) (rd, addr) v6 (snd (fst e), snd e) = true).
 
 Theorem mirror_partial : forall open_decode upd_apply c, ignore_asns c = [] ->
@@ -987,7 +988,7 @@ Proof. intros od ua c H acts Hwf. exact (mirror od ua c H acts Hwf). Qed.
    well: its announcement of 1.0.0.0/24 is live but not in the table of VRF 1. *)
 Definition wit_open (b : bytes) : option open_info := Some (mk_open (be (firstn 2 (skipn 20 b))) 1 [] []).
 Definition wit_apply (_ _ _ : bool) (b : bytes) : list uevent :=
-  match b with [1; p; i] => [UAnn false (p, 24) i] | _ => [] end.
+  match b with [1; p; i] => [UAnn false (p, 24) i (mk_pa false [65011] 0 [])] | _ => [] end.
 Definition wit_cfg : cfg := mk_cfg [65010] false false.
 Definition wit_pph (rd aslo : N) : bytes :=
   [0; 0] ++ repeat 0 7 ++ [rd] ++ repeat 0 12 ++ [10; 0; 0; 2] ++ [0; 0; 253; aslo] ++ repeat 0 12.
@@ -1003,6 +1004,24 @@ Theorem mirror_refuted :
 Proof.
   exists wit_open, wit_apply, wit_cfg, wit_hist. split; [vm_compute; reflexivity|].
   intros (st & R & H1 & _). vm_compute in R. injection R as <-.
-  specialize (H1 (1, 167772162) (false, 167772162) false false false ((1, 24), 0)).
+  specialize (H1 (1, 167772162) (false, 167772162) false false false 1 false ((1, 24), 0)).
+  vm_compute in H1. specialize (H1 eq_refl). discriminate.
+Qed.
+
+(* Second witness, for the other guard of wf: a path the Adj-RIB-In of the pseudo session hides. The
+   eBGP peer 10.0.0.2 of VRF 1 reports 1.0.0.0/24 with an empty AS_PATH: the route is live, the table
+   does not hold it (AdjRIBIn.validatePath: HiddenReasonEmptyASPath). *)
+Definition wit2_apply (_ _ _ : bool) (b : bytes) : list uevent :=
+  match b with [1; p; i] => [UAnn false (p, 24) i (mk_pa true [] 0 [])] | _ => [] end.
+Definition wit2_cfg : cfg := mk_cfg [] false false.
+Definition wit2_hist : list action := [AFrame (wit_up 1 243); AFrame (wit_rm 1 243)].
+
+Theorem mirror_hidden_refuted :
+  exists open_decode upd_apply c acts,
+    ignore_asns c = [] /\ ~ mirror_holds open_decode upd_apply c acts.
+Proof.
+  exists wit_open, wit2_apply, wit2_cfg, wit2_hist. split; [reflexivity|].
+  intros (st & R & H1 & _). vm_compute in R. injection R as <-.
+  specialize (H1 (1, 167772162) (false, 167772162) false false false 1 false ((1, 24), 0)).
   vm_compute in H1. specialize (H1 eq_refl). discriminate.
 Qed.
